@@ -354,6 +354,16 @@ fn sweep(dump: &Dump, o: &mut Out) {
             let _ = dump.get_raw_stream(d.stream_type);
         }
     });
+    if sys.is_some() {
+        let os_name = match os {
+            Os::Unknown(_) => "Unknown".to_string(),
+            other => format!("{:?}", other),
+        };
+        o.tags.push(format!("sweep:MinidumpSystemInfo=ok os={os_name}"));
+    }
+    if misc.is_some() {
+        o.tags.push("sweep:MinidumpMiscInfo=ok".into());
+    }
     if let Some(s) = &sys {
         o.guard("MinidumpSystemInfo accessors/print", || {
             let _ = s.print(&mut sink);
@@ -469,9 +479,11 @@ fn sweep(dump: &Dump, o: &mut Out) {
             let _ = l.by_addr().count();
         }
     });
+    let mut has_maps = false;
     o.guard("memory info / linux maps accessors/print", || {
         let info = dump.get_stream::<MinidumpMemoryInfoList>().ok();
         let maps = dump.get_stream::<MinidumpLinuxMaps>().ok();
+        has_maps = maps.is_some();
         if let Some(l) = &info {
             let _ = l.print(&mut sink);
             let _ = l.by_addr().count();
@@ -499,6 +511,9 @@ fn sweep(dump: &Dump, o: &mut Out) {
             let _ = u.memory_info_at_address(0x1000);
         }
     });
+    if has_maps {
+        o.tags.push("sweep:MinidumpLinuxMaps=ok".into());
+    }
     o.guard("MinidumpException accessors/print", || {
         if let Ok(x) = dump.get_stream::<MinidumpException>() {
             let _ = x.print(&mut sink, sys.as_ref(), misc.as_ref());
@@ -521,11 +536,19 @@ fn sweep(dump: &Dump, o: &mut Out) {
     });
     macro_rules! simple_print {
         ($t:ty, $name:literal) => {
-            o.guard($name, || {
-                if let Ok(s) = dump.get_stream::<$t>() {
-                    let _ = s.print(&mut sink);
-                }
-            });
+            let cls = o
+                .guard($name, || match dump.get_stream::<$t>() {
+                    Ok(s) => {
+                        let _ = s.print(&mut sink);
+                        Some("ok")
+                    }
+                    Err(Error::StreamNotFound) => None,
+                    Err(_) => Some("err"),
+                })
+                .flatten();
+            if let Some(c) = cls {
+                o.tags.push(format!("sweep:{}={}", stringify!($t), c));
+            }
         };
     }
     simple_print!(MinidumpAssertion, "MinidumpAssertion print");
@@ -550,12 +573,20 @@ fn sweep(dump: &Dump, o: &mut Out) {
     });
     macro_rules! text_stream {
         ($t:ty, $name:literal) => {
-            o.guard($name, || {
-                if let Ok(s) = dump.get_stream::<$t>() {
-                    let _ = s.iter().count();
-                    let _ = s.raw_bytes().len();
-                }
-            });
+            let cls = o
+                .guard($name, || match dump.get_stream::<$t>() {
+                    Ok(s) => {
+                        let _ = s.iter().count();
+                        let _ = s.raw_bytes().len();
+                        Some("ok")
+                    }
+                    Err(Error::StreamNotFound) => None,
+                    Err(_) => Some("err"),
+                })
+                .flatten();
+            if let Some(c) = cls {
+                o.tags.push(format!("sweep:{}={}", stringify!($t), c));
+            }
         };
     }
     text_stream!(MinidumpLinuxLsbRelease, "MinidumpLinuxLsbRelease iter");
@@ -900,8 +931,13 @@ fn synth_dump(rng: &mut Rng, be: bool) -> Vec<u8> {
         d = d.add_crashpad_info(ci);
     }
     if rng.chance(1, 3) {
+        let maps: &[u8] = if rng.chance(2, 3) {
+            b"00400000-00452000 r-xp 00000000 08:01 1234                       /bin/foo\n7f0000000000-7f0000021000 rw-p 00000000 00:00 0                          [stack]\nffffffffff600000-ffffffffff601000 --xp 00000000 00:00 0                  [vsyscall]\n"
+        } else {
+            b"00400000-00452000 r-xp 00000000 08:01 1234 /bin/foo\n7f00-7fff rw-p 0 00:00 0 [stack]\nbad line\n"
+        };
         d = d
-            .set_linux_maps(b"00400000-00452000 r-xp 00000000 08:01 1234 /bin/foo\n7f00-7fff rw-p 0 00:00 0 [stack]\nbad line\n")
+            .set_linux_maps(maps)
             .set_linux_lsb_release(b"DISTRIB_ID=Ubuntu\nDISTRIB_RELEASE=\"20.04\"\n")
             .set_linux_proc_status(b"Name:\tfoo\nPid:\t42\n")
             .set_linux_proc_limits(b"Limit Soft Hard Units\nMax cpu time unlimited unlimited seconds\nx\n")
@@ -1165,6 +1201,84 @@ fn crafted_dump(rng: &mut Rng, be: bool) -> Vec<u8> {
         }
         dir.push((24, w.here() - at, at));
     }
+    // the vendor streams minidump-synth cannot write: breakpad info, assertion, mac crash info, mac boot args
+    if rng.chance(1, 2) {
+        let at = w.here();
+        w.u32(rng.below(4) as u32);
+        w.u32(0x200);
+        w.u32(*rng.pick(&[0x200u32, 0x201, 0, u32::MAX]));
+        dir.push((0x4767_0001, w.here() - at, at));
+    }
+    if rng.chance(1, 3) {
+        let at = w.here();
+        for k in 0..3 * 128u32 {
+            // UTF-16 text, sometimes unterminated, sometimes with lone surrogates
+            let u: u16 = match rng.below(12) {
+                0 => 0,
+                1 => 0xd800,
+                2 => 0xdc00,
+                _ => 0x41 + (k % 26) as u16,
+            };
+            if w.be {
+                w.buf.extend_from_slice(&u.to_be_bytes())
+            } else {
+                w.buf.extend_from_slice(&u.to_le_bytes())
+            }
+        }
+        w.u32(42);
+        w.u32(rng.below(4) as u32);
+        dir.push((0x4767_0002, w.here() - at, at));
+    }
+    if rng.chance(1, 2) {
+        // records first, then the header pointing at them
+        let version = *rng.pick(&[1u64, 4, 5, 5, 6, 0, u64::MAX]);
+        let fixed: u32 = match version {
+            0..=3 => 16,
+            4 => 32,
+            _ => 40,
+        };
+        let start = *rng.pick(&[fixed, fixed, fixed + 8, 0, 8, u32::MAX]);
+        let n = rng.below(4) as u32;
+        let mut recs = Vec::new();
+        for _ in 0..n {
+            let at = w.here();
+            w.u64(0x4d7a_0001);
+            w.u64(if rng.chance(1, 8) { version.wrapping_add(1) } else { version });
+            for _ in 2..fixed / 8 {
+                w.u64(rng.next());
+            }
+            for _ in fixed..start.min(64) {
+                w.buf.push(0x2e);
+            }
+            for k in 0..5 {
+                if rng.chance(1, 10) {
+                    break; // missing strings / terminator
+                }
+                w.buf.extend_from_slice(format!("string number {k}").as_bytes());
+                if rng.chance(1, 10) {
+                    w.buf.push(0xff);
+                }
+                w.buf.push(0);
+            }
+            recs.push((w.here() - at, at));
+        }
+        let at = w.here();
+        w.u32(0x4d7a_0001);
+        w.u32(if rng.chance(1, 6) { *rng.pick(&[21u32, 255, u32::MAX]) } else { n });
+        w.u32(start);
+        for k in 0..20 {
+            let (sz, rva) = recs.get(k).copied().unwrap_or((0, 0));
+            w.u32(sz);
+            w.u32(if rng.chance(1, 12) { u32::MAX } else { rva });
+        }
+        dir.push((0x4d7a_0001, w.here() - at, at));
+    }
+    if rng.chance(1, 3) {
+        let at = w.here();
+        w.u32(0x4d7a_0002);
+        w.u64(*rng.pick(&[s_obj as u64, s_type as u64, 0, u64::MAX, 1 << 40]));
+        dir.push((0x4d7a_0002, w.here() - at, at));
+    }
     // directory (sometimes with duplicates, sometimes pointing at itself)
     if rng.chance(1, 3) && !dir.is_empty() {
         let d0 = dir[rng.below(dir.len() as u64) as usize];
@@ -1177,6 +1291,101 @@ fn crafted_dump(rng: &mut Rng, be: bool) -> Vec<u8> {
     for (t, s, r) in &dir {
         w.u32(*t);
         w.u32(*s);
+        w.u32(*r);
+    }
+    w.put32(8, dir.len() as u32);
+    w.put32(12, dir_at);
+    w.buf
+}
+
+/// Long lists (thousands of entries): recursion depth / quadratic behaviour / allocation sizes at scale.
+fn large_dump(rng: &mut Rng, be: bool, target: usize) -> Vec<u8> {
+    let mut w = W { buf: Vec::new(), be };
+    w.u32(md::MINIDUMP_SIGNATURE);
+    w.u32(md::MINIDUMP_VERSION);
+    for _ in 0..6 {
+        w.u32(0);
+    }
+    let mut dir: Vec<(u32, u32, u32)> = Vec::new();
+    let name = w.utf16("a module with a fairly long name.dll");
+    // a chain of object infos shared by every handle
+    let n_info = 1 + rng.below(20) as u32;
+    let info0 = w.here();
+    for i in 0..n_info {
+        w.u32(if i + 1 < n_info { info0 + 12 * (i + 1) } else { *rng.pick(&[0u32, info0]) });
+        w.u32(rng.below(10) as u32);
+        w.u32(12);
+    }
+    let per = target / 4;
+    {
+        let n = (per / 40) as u32;
+        let at = w.here();
+        w.u32(16);
+        w.u32(40);
+        w.u32(n);
+        w.u32(0);
+        for i in 0..n {
+            w.u64(i as u64);
+            w.u32(if i % 7 == 0 { name } else { 0 });
+            w.u32(0);
+            w.u32(0);
+            w.u32(0);
+            w.u32(1);
+            w.u32(1);
+            w.u32(if i % 5 == 0 { info0 } else { 0 });
+            w.u32(0);
+        }
+        dir.push((12, w.here() - at, at));
+    }
+    {
+        let n = (per / 16) as u32;
+        let at = w.here();
+        w.u32(n);
+        for i in 0..n {
+            w.u64(0x1000 * i as u64);
+            w.u32(16 + (i % 64));
+            w.u32(32 + (i % 512));
+        }
+        dir.push((5, w.here() - at, at));
+    }
+    {
+        let n = (per / 108) as u32;
+        let at = w.here();
+        w.u32(n);
+        for i in 0..n {
+            w.u64(0x10_0000 * i as u64);
+            w.u32(if i % 9 == 0 { 0 } else { 0x1000 });
+            w.u32(0);
+            w.u32(0);
+            w.u32(name);
+            for _ in 0..(108 - 24) / 4 {
+                w.u32(0);
+            }
+        }
+        dir.push((4, w.here() - at, at));
+    }
+    {
+        let n = (per / 48) as u32;
+        let at = w.here();
+        w.u32(n);
+        for i in 0..n {
+            w.u32(i);
+            w.u32(0);
+            w.u32(0);
+            w.u32(0);
+            w.u64(0);
+            w.u64(0x7000_0000 + 0x1000 * i as u64);
+            w.u32(64);
+            w.u32(32);
+            w.u32(16);
+            w.u32(64);
+        }
+        dir.push((3, w.here() - at, at));
+    }
+    let dir_at = w.here();
+    for (t, s_, r) in &dir {
+        w.u32(*t);
+        w.u32(*s_);
         w.u32(*r);
     }
     w.put32(8, dir.len() as u32);
@@ -1240,7 +1449,7 @@ impl Engine for Read {
     }
 
     fn generate(&self, tier: Tier, rng: &mut Rng, emit: &mut dyn FnMut(String)) {
-        let scale: u64 = if tier == Tier::Quick { 1 } else { 8 };
+        let scale: u64 = if tier == Tier::Quick { 6 } else { 24 };
         let cap: usize = if tier == Tier::Quick { 200 * 1024 } else { 1024 * 1024 };
         // ---- seeds
         let mut seeds: Vec<Vec<u8>> = Vec::new();
@@ -1258,6 +1467,9 @@ impl Engine for Read {
                     }
                 }
             }
+        }
+        for (i, target) in (if tier == Tier::Quick { vec![60_000usize, 150_000] } else { vec![60_000, 150_000, 400_000, 900_000] }).into_iter().enumerate() {
+            big_seeds.push(large_dump(rng, i % 2 == 1, target));
         }
         for i in 0..40 * scale {
             seeds.push(synth_dump(rng, i % 2 == 1));
@@ -1312,8 +1524,9 @@ impl Engine for Read {
                 }
             }
         }
+        let heavy = |s: &Vec<u8>, n: u64| if s.len() > 256 * 1024 { (n / 8).max(2) } else { n };
         for s in &big_seeds {
-            for _ in 0..6 * scale {
+            for _ in 0..heavy(s, 6 * scale) {
                 let k = rng.below(s.len() as u64 + 1) as usize;
                 emit(case_line(&s[..k], "truncated"));
             }
@@ -1346,7 +1559,7 @@ impl Engine for Read {
             subst(s, 22, rng, emit);
         }
         for s in &big_seeds {
-            subst(s, 12 * scale, rng, emit);
+            subst(s, heavy(s, 12 * scale), rng, emit);
         }
         // ---- byte flips
         for s in seeds.iter().chain(big_seeds.iter()) {
